@@ -608,6 +608,14 @@ def main():
         write_if_changed(os.path.join(os.path.dirname(OUT), "Sites", "Reviewed.lean"),
                          site_file("BC.Sites", "reviewed", "/-- the reviewed sites, sorted by key -/"))
 
+    # G2: straight-line functions -> Gen/Funcs.lean
+    try:
+        sys.path.insert(0, os.path.dirname(os.path.abspath(__file__)))
+        import funcs
+        broken.extend(funcs.generate())
+    except Exception as e:  # the function translator must never take the other extractions down with it
+        broken.append(f"funcs: translator crashed: {type(e).__name__} {e}")
+
     for b in broken:
         print("BROKEN", b)
     print(f"ok fmt={len(fmts)} guards={len(guards)} structs={len(structs)} drops={len(drops)} tables={len(tables)} sites={len(uniq)}")
